@@ -48,6 +48,10 @@ type c20Req struct {
 	GSVDelayUs  int  `json:"gsv_delay_us"`  // the reader thinks this long before answering GetSupportedVersion
 	PostKAs     int  `json:"post_kas"`      // keep-alives (ids 5000..) sent once the harness has seen the client ready
 	PostKAFirst bool `json:"post_ka_first"` // ... before the first caller is started (else right after)
+	// payload paths: how big the reader's replies are, how they arrive, and who else reads them
+	BigPct  int    `json:"big_pct"` // percentage of echoed replies whose payload is around / beyond MaxBufferedPayloadSz
+	Pieces  int    `json:"pieces"`  // a big reply is written in this many pieces, the last 100 bytes after a pause
+	Handler string `json:"handler"` // "" | all | part | none: a handler for the reply type that reads all / some / nothing of the payload
 }
 
 // a frame the reader received that was certainly written after Connect became ready: a caller's request or
@@ -188,8 +192,40 @@ func (p *c20Peer) serve() {
 		case 14: // CloseConnection
 			p.write(c20Frame(1, 4, id, c20Status(0)))
 		case 1023: // CustomMessage: echo
-			p.reqs.Add(1)
-			p.write(c20Frame(1, 1023, id, payload))
+			n := p.reqs.Add(1)
+			if p.rq.BigPct > 0 && int(n*37%100) < p.rq.BigPct {
+				// a reply at / just beyond the buffering limit, delivered in pieces with a pause before the end
+				size := int(MaxBufferedPayloadSz) - 1 + int(n%3)*2048
+				big := make([]byte, size)
+				copy(big, payload)
+				fr := c20Frame(1, 1023, id, big)
+				pieces := p.rq.Pieces
+				if pieces < 1 {
+					pieces = 1
+				}
+				cut := len(fr) - 100
+				step := cut/pieces + 1
+				p.wmu.Lock()
+				p.conn.SetWriteDeadline(time.Now().Add(5 * time.Second))
+				for off := 0; off < cut; off += step {
+					end := off + step
+					if end > cut {
+						end = cut
+					}
+					if _, err := p.conn.Write(fr[off:end]); err != nil {
+						p.werrs.Add(1)
+						break
+					}
+				}
+				time.Sleep(2 * time.Millisecond)
+				if _, err := p.conn.Write(fr[cut:]); err != nil {
+					p.werrs.Add(1)
+				}
+				p.wmu.Unlock()
+				p.keepalives(1)
+			} else {
+				p.write(c20Frame(1, 1023, id, payload))
+			}
 		default:
 			p.reqs.Add(1)
 			p.write(c20Frame(1, 100, id, c20Status(109)))
@@ -229,6 +265,17 @@ func c20Run(rq c20Req) map[string]interface{} {
 	}
 	if rq.TimeoutMs > 0 {
 		opts = append(opts, WithTimeout(time.Duration(rq.TimeoutMs)*time.Millisecond))
+	}
+	if rq.Handler != "" {
+		mode := rq.Handler
+		opts = append(opts, WithMessageHandler(MsgCustomMessage, MessageHandlerFunc(func(_ *Client, m Message) {
+			switch mode {
+			case "all":
+				_, _ = io.Copy(io.Discard, m.payload)
+			case "part":
+				_, _ = io.CopyN(io.Discard, m.payload, 3)
+			}
+		})))
 	}
 	c := NewClient(opts...)
 	p := &c20Peer{rq: rq, conn: peerConn, stop: make(chan struct{})}
